@@ -1,10 +1,18 @@
 import Utcp.Lemmas.Conn
 import Utcp.Handshake
+import Utcp.Lemmas.Keeps
+import Utcp.Lemmas.RecvKeeps
+import Utcp.Lemmas.RecvOrder
 /-!
 # C15 — keep-alives flow when idle; timeouts fire only after real silence
 
 Local theorems about one endpoint under an *arbitrary* clock value: the clock enters only through
-`Env.nowMs`, so every statement holds for every schedule of the virtual clock.
+`Env.nowMs`, so every statement holds for every schedule of the virtual clock.  Over every history
+(`healthy_never_times_out`): as long as some data datagram from the peer — any, even a stale one — reaches the endpoint at least
+every 120 s, no `utcp_update` ever finds the timeout condition true, whatever else happens in between (sends, flushes, the bodies
+of the datagrams, the absolute clock values).  With `keepalive_sent` (a connected peer that flushes emits a packet at least every
+200 ms + its flush period) this is why an idle, healthy link does not time out; the delivery of the peer's packets by the network is
+the assumption.
 -/
 namespace Utcp.Props.C15
 open Utcp Utcp.Gen
@@ -103,8 +111,186 @@ theorem data_stamps {T} (tm : TimeOps T) (e : Env) (rng : Rng) (ep : Endpoint) (
   simp only [this, Bool.false_eq_true, if_false]
   exact ⟨_, rfl, rfl⟩
 
+/-! ## every history: arrivals at least every 120 s ⇒ never a timeout -/
+
+/-- what happens to a connected endpoint -/
+inductive Op where
+  | send (b : Bunch)
+  | flush
+  /-- a data datagram with a non-empty body `bits` arrives (`utcp_incoming` stamps the receive time, then `ReceivedPacket`) -/
+  | data (bits : Bits)
+  | update
+
+def apply (e : Env) (c : Conn) : Op → Conn
+  | .send b => (c.sendBunch e b).1
+  | .flush => c.flush e
+  | .data bits => (({ c with lastRecvMs := e.nowMs } : Conn).receivedPacket e bits).1
+  | .update => (c.checkTimeout e).updateTail.1
+
+/-- the number of `update` calls in a history at which the timeout condition was true -/
+def timeouts (c : Conn) : List (Env × Op) → Nat
+  | [] => 0
+  | (e, .update) :: rest => (if e.nowMs - c.lastRecvMs > 120000 then 1 else 0) + timeouts (apply e c .update) rest
+  | (e, op) :: rest => timeouts (apply e c op) rest
+
+/-- the schedule hypothesis: at every `update`, the most recent arrival (or the initial stamp `t`) is at most 120 s old -/
+def Fresh (t : Int) : List (Env × Op) → Prop
+  | [] => True
+  | (e, .data _) :: rest => Fresh e.nowMs rest
+  | (e, .update) :: rest => e.nowMs - t ≤ 120000 ∧ Fresh t rest
+  | (_, _) :: rest => Fresh t rest
+
+theorem notifyUpdate_lastRecv (e : Env) (c : Conn) (h : NotifHeader) : (c.notifyUpdate e h).lastRecvMs = c.lastRecvMs := by
+  have hcore : (c.notifyUpdate e h).lastRecvMs = (notifyCore e c h).lastRecvMs := by
+    unfold Conn.notifyUpdate notifyCore; dsimp only; split <;> rfl
+  rw [hcore]
+  unfold notifyCore
+  have hh : ∀ (c : Conn) (v : Int × Bool), (c.handleNotification e v).lastRecvMs = c.lastRecvMs := by
+    intro c v
+    unfold Conn.handleNotification
+    dsimp only
+    split
+    · rfl
+    · split
+      · exact (onAckChans_keeps _ _ _).lastRecvMs
+      · exact (onNakChans_keeps e _ _ _).lastRecvMs
+  have hfold : ∀ (vs : List (Int × Bool)) (c : Conn), (vs.foldl (Conn.handleNotification e) c).lastRecvMs = c.lastRecvMs := by
+    intro vs
+    induction vs with
+    | nil => intro c; rfl
+    | cons v rest ih => intro c; exact (ih _).trans (hh c v)
+  split
+  · exact hfold _ _
+  · rfl
+
+theorem receivedPacket_lastRecv (e : Env) (c : Conn) (bits : Bits) : (c.receivedPacket e bits).1.lastRecvMs = c.lastRecvMs := by
+  unfold Conn.receivedPacket
+  split
+  · unfold Conn.markClose; split <;> rfl
+  · rename_i hd rest hdec
+    dsimp only
+    split
+    · rfl
+    · have h2 := notifyUpdate_lastRecv e ({ c with inPacketId := c.inPacketId + c.notify.deltaSeq hd } : Conn) hd
+      have h3 := (bunchLoop_sameN (rest.length + 1) (({ c with inPacketId := c.inPacketId + c.notify.deltaSeq hd } : Conn).notifyUpdate e hd) rest false).lastRecvMs
+      generalize Conn.bunchLoop (rest.length + 1) (({ c with inPacketId := c.inPacketId + c.notify.deltaSeq hd } : Conn).notifyUpdate e hd) rest false = r at h3 ⊢
+      obtain ⟨c3, rest', skip⟩ := r
+      exact h3.trans h2
+
+theorem sendBunch_lastRecv (e : Env) (c : Conn) (b : Bunch) : (c.sendBunch e b).1.lastRecvMs = c.lastRecvMs := by
+  have hraw : (c.sendRaw e b).1.lastRecvMs = c.lastRecvMs := by
+    unfold Conn.sendRaw
+    split
+    · rfl
+    · unfold Conn.sendCommit
+      dsimp only
+      have h1 : ((c.getOrCreateChan b false).1.noteClose b).lastRecvMs = c.lastRecvMs :=
+        (noteClose_sameN _ b).lastRecvMs.trans (getOrCreateChan_sameN c b false).lastRecvMs
+      generalize (c.getOrCreateChan b false).1.noteClose b = c1 at h1 ⊢
+      split
+      · exact h1
+      · rename_i x hx
+        generalize (if b.bReliable = true then x.outReliable + 1 else 0 : Int) = seq
+        generalize (if b.bReliable = true then (encodeBunchHeader { b with chSeq := seq }).getD _ else _) = hdr
+        have h2 : (if b.bReliable = true then c1.setChan b.chIndex { x with outReliable := seq } else c1).lastRecvMs = c.lastRecvMs := by
+          split
+          · exact h1
+          · exact h1
+        generalize (if b.bReliable = true then c1.setChan b.chIndex { x with outReliable := seq } else c1) = c2 at h2 ⊢
+        have h4 : ((c2.prepareWrite e (hdr.length + b.data.length)).writeInternal e (hdr ++ b.data)).1.lastRecvMs = c.lastRecvMs :=
+          ((writeInternal_keeps e _ _).lastRecvMs.trans (prepareWrite_keeps e c2 _).lastRecvMs).trans h2
+        split
+        · unfold Conn.addOutRec
+          split
+          · exact h4
+          · exact h4
+        · exact h4
+  unfold Conn.sendBunch
+  generalize c.sendRaw e b = r at hraw ⊢
+  obtain ⟨c', rr⟩ := r
+  simp only at hraw ⊢
+  split <;> exact hraw
+
+theorem updateTail_lastRecv (c : Conn) : c.updateTail.1.lastRecvMs = c.lastRecvMs := by
+  have hd : c.delayClose.lastRecvMs = c.lastRecvMs := by
+    unfold Conn.delayClose
+    split
+    · rfl
+    · dsimp only
+      have hfree : ∀ (c : Conn) (x : Channel), (c.freeChan x).lastRecvMs = c.lastRecvMs := by
+        intro c x
+        unfold Conn.freeChan
+        dsimp only
+        show (((c.freeNodes _).freeNodes _).freeNodes _).lastRecvMs = _
+        rw [(freeNodes_sameN _ _).lastRecvMs, (freeNodes_sameN _ _).lastRecvMs, (freeNodes_sameN _ _).lastRecvMs]
+      have hfold : ∀ (l : List (Nat × Channel)) (c' : Conn),
+          (l.foldl (fun c (p : Nat × Channel) =>
+            if !p.2.bClose then c
+            else if !p.2.outRec.isEmpty then { c with hasChannelClose := true }
+            else { c.freeChan p.2 with chans := c.chans.filter (·.1 != p.1) }) c').lastRecvMs = c'.lastRecvMs := by
+        intro l
+        induction l with
+        | nil => intro c'; rfl
+        | cons p rest ih =>
+          intro c'
+          simp only [List.foldl_cons]
+          split
+          · exact ih _
+          · split
+            · exact ih _
+            · rw [ih]; exact hfree c' p.2
+      exact hfold _ _
+  unfold Conn.updateTail
+  dsimp only
+  split
+  · exact hd
+  · exact hd
+
+/-- the receive stamp after a step: the clock of the step for an arrival, unchanged otherwise -/
+theorem apply_lastRecv (e : Env) (c : Conn) (op : Op) :
+    (apply e c op).lastRecvMs = (match op with | .data _ => e.nowMs | _ => c.lastRecvMs) := by
+  cases op with
+  | send b => exact sendBunch_lastRecv e c b
+  | flush => exact (flush_keeps e c).lastRecvMs
+  | data bits => exact receivedPacket_lastRecv e _ bits
+  | update =>
+    show (c.checkTimeout e).updateTail.1.lastRecvMs = c.lastRecvMs
+    rw [updateTail_lastRecv]
+    unfold Conn.checkTimeout Conn.markClose
+    split
+    · split <;> rfl
+    · rfl
+
+/-- **an endpoint that keeps hearing from its peer never times out**: if at every `update` of a history the most recent data
+datagram arrived at most 120 s earlier (any datagram with a non-empty body counts, also a stale or damaged one), the timeout
+condition is false at every one of those updates — for every interleaving with sends, flushes and arrivals, and every clock -/
+theorem healthy_never_times_out (ops : List (Env × Op)) : ∀ c : Conn, Fresh c.lastRecvMs ops → timeouts c ops = 0 := by
+  induction ops with
+  | nil => intro c _; rfl
+  | cons p rest ih =>
+    intro c h
+    obtain ⟨e, op⟩ := p
+    have hl := apply_lastRecv e c op
+    cases op with
+    | send b => simp only [timeouts]; exact ih _ (by simp only [Fresh] at h; rw [hl]; exact h)
+    | flush => simp only [timeouts]; exact ih _ (by simp only [Fresh] at h; rw [hl]; exact h)
+    | data bits => simp only [timeouts]; exact ih _ (by simp only [Fresh] at h; rw [hl]; exact h)
+    | update =>
+      simp only [Fresh] at h
+      simp only [timeouts]
+      have : ¬ (e.nowMs - c.lastRecvMs > 120000) := by omega
+      simp only [this, if_false, Nat.zero_add]
+      exact ih _ (by rw [hl]; exact h.2)
+
+/-- … and at such an update the timeout test leaves the connection exactly as it was -/
+theorem fresh_update_is_tail (e : Env) (c : Conn) (h : e.nowMs - c.lastRecvMs ≤ 120000) : apply e c .update = c.updateTail.1 := by
+  show (c.checkTimeout e).updateTail.1 = _
+  rw [no_timeout_frame e c h]
+
 /-! non-vacuity -/
 example : (({ connected := true, lastSendMs := 1000 } : Conn).flush { elapsedUs := 200000 }).outPacketId = 1 := by decide
 example : (({ connected := true, lastSendMs := 1000 } : Conn).flush { elapsedUs := 199000 }).outPacketId = 0 := by decide
+example : Fresh 1000 [({ elapsedUs := 100000000 }, .update), ({ elapsedUs := 110000000 }, .data [true]), ({ elapsedUs := 220000000 }, .update)] := by
+  simp [Fresh, Env.nowMs, utcp_gettime_ms]
 
 end Utcp.Props.C15
